@@ -339,8 +339,22 @@ def change_dates():
         raw = yaml.load((RESOURCE_DIR / "parameters" / f"{g}.yaml").read_text(encoding="utf-8"), Loader=yaml.CLoader)
         walk(raw)
     pat = re.compile(r"(start_date|end_date)\s*=\s*\"(\d{4}-\d{2}-\d{2})\"")
+    lit = re.compile(r"[\"'](\d{4}-\d{2}-\d{2})[\"']")
     for path in RESOURCE_DIR.rglob("*.py"):
-        for kind, ds in pat.findall(path.read_text(encoding="utf-8")):
+        if "_tests" in str(path) or path.name in ("synthetic.py", "visualization.py"):
+            continue
+        text = path.read_text(encoding="utf-8")
+        decorated = {ds for _, ds in pat.findall(text)}
+        for ds in lit.findall(text):  # any other date literal in code may open a window of its own
+            if ds in decorated:
+                continue
+            try:
+                d = datetime.date.fromisoformat(ds)
+            except ValueError:
+                continue
+            if 1 < d.year < 9999:
+                dates.add(d)
+        for kind, ds in pat.findall(text):
             d = datetime.date.fromisoformat(ds)
             if kind == "end_date":
                 if d.year < 9999:
